@@ -306,7 +306,10 @@ class Interp:
                 env[p] = self.eval(defaults[i], {}, Frame(fn, fn.__globals__), pc)
             else:
                 raise NotEncodable('missing argument %s of %s' % (p, fn.__name__))
-        if a.vararg or a.kwarg or kwargs:
+        if a.kwarg:
+            env[a.kwarg.arg] = dict(kwargs)
+            kwargs = {}
+        if a.vararg or kwargs:
             raise NotEncodable('unsupported signature of %s' % fn.__name__)
         fr = Frame(fn, fn.__globals__)
         fr.is_gen = any(isinstance(n, (ast.Yield, ast.YieldFrom)) for n in ast.walk(node))
@@ -1072,6 +1075,19 @@ class Interp:
             if not isinstance(obj, SObj) or owner is None:
                 raise NotEncodable('super() outside a model object method')
             return _Super(owner, obj)
+        if isinstance(f, _Bound) and f.fn in ctx.extra_calls:
+            return ctx.extra_calls[f.fn](self, [f.obj] + args, kwargs, pc)
+        if f is type and len(args) == 1 and not kwargs:
+            v = args[0]
+            if isinstance(v, SBool):
+                return bool
+            if isinstance(v, SInt):
+                return int
+            if isinstance(v, SFloat):
+                return float
+            if isinstance(v, SObj):
+                return v.cls
+            return type(v)
         if isinstance(f, _Bound):
             return self._call_function(f.fn, [f.obj] + args, kwargs, pc)
         if getattr(f, '__objclass__', None) is object or f is object.__init__:
